@@ -24,6 +24,7 @@ class Case:
     timeout: float = 5.0
     fuel: int = 3_000_000
     skip_model: bool = False
+    big: bool = False                # also evaluate with the verified big-step evaluator (driver command main2)
     timeout_fails: bool = False      # not finishing within `timeout` is itself a failure (termination is the property)
 
     def key(self):
@@ -129,6 +130,20 @@ def run_case(case: Case):
         rec['status'] = 'disagree'
         rec['detail'] = {'impl': small(a), 'model': small(m)}
         return rec
+    if case.big and case.mode == 'main':
+        # second model: the executable big-step evaluator (proved to agree with the machine whenever it returns —
+        # BigStep.evalF_machine); a result here also witnesses that a derivation of the natural semantics exists
+        try:
+            b = model.run_main_big(case.program, case.stdin, case.fs, case.format_io)
+        except Exception:
+            return {'tag': case.tag, 'status': 'harness-error', 'detail': traceback.format_exc()[-800:]}
+        rec['big_kind'] = b['kind']
+        if b['kind'] not in ('fuel', 'unmodelled'):
+            rec['big_height'] = b.get('height', 0)
+            if obs(b, case.compare_fs) != obs(a, case.compare_fs):
+                rec['status'] = 'disagree'
+                rec['detail'] = {'impl': small(a), 'bigstep': small(b), 'model': small(m)}
+                return rec
     if case.mode == 'events':
         ia = [(e[0], e[1], tuple(e[2])) + ((e[4],) if e[0] == 'A' else ()) for e in a['events']]
         if ia != m.get('events'):
